@@ -169,26 +169,30 @@ def random_graph(rng):
 
 
 def model_and_replay(ctx, cov):
-    runs = [("BreakCyclesMC", "BreakCycles_small.cfg", True), ("BreakCyclesMC", "BreakCycles_nocb.cfg", False)]
+    runs = [("BreakCyclesMC", "BreakCycles_small.cfg", True), ("BreakCyclesMC", "BreakCycles_nocb.cfg", False),
+            ("BreakCyclesMC", "BreakCycles_evv.cfg", True), ("BreakCyclesMC", "BreakCycles_evvunsigned.cfg", False)]
     if ctx.tier == "thorough":
         runs += [("BreakCyclesMC", "BreakCycles_big.cfg", True), ("BreakCyclesMC", "BreakCycles_big1.cfg", True),
                  ("BreakCyclesMC", "BreakCycles_nocn.cfg", True)]
-    R = mc.check_cfgs(runs, nproc=ctx.nproc, timeout=ctx.pick(1500, 14000), parallel=2)
+    R = mc.check_cfgs(runs, nproc=ctx.nproc, timeout=ctx.pick(1800, 14000), parallel=4)
     ok_runs = [cfg for _, cfg, e in runs if e]
     cov["model_states"] = sum(R[c]["states"] for c in ok_runs)
     cov["model_configs"] = {c: {"states": r["states"], "depth": r["depth"]} for c, r in R.items()}
-    cov["expected_counterexample_found"] = "BreakCycles_nocb.cfg (memo entries reused although they broke a cycle that is not on the current path)"
-    H = mc.exported(R["BreakCycles_small.cfg"]["out"])
+    cov["expected_counterexamples_found"] = ["BreakCycles_nocb.cfg (memo entries reused although they broke a cycle that is not on the current path)",
+                                             "BreakCycles_evvunsigned.cfg (propagated value of a negatively referenced node not negated)"]
+    H = mc.exported(R["BreakCycles_small.cfg"]["out"]) + mc.exported(R["BreakCycles_evv.cfg"]["out"])
     if not H:
-        raise MachineryError("no behaviours exported by BreakCycles_small.cfg")
-    cases = [{"id": i, "src": _strip(h["src"]), "queries": h["queries"], "model": h} for i, h in enumerate(H)]
+        raise MachineryError("no behaviours exported by BreakCycles_small.cfg / BreakCycles_evv.cfg")
+    cases = [{"id": i, "src": _strip(h["src"]), "queries": h["queries"], "evv": h["evv"], "model": h} for i, h in enumerate(H)]
     nexp = len(cases)
     rng = random.Random(ctx.seed + 90909)
     for _ in range(ctx.pick(1500, 20000)):
         g, qs = random_graph(rng)
-        cases.append({"id": len(cases), "src": g, "queries": qs})
+        # half of them with evidence propagation as the default pipeline does it (the real propagate fills lookup_evidence)
+        cases.append({"id": len(cases), "src": g, "queries": qs,
+                      "evv": "propagate" if (rng.random() < 0.5 and any(q["phase"] == 2 for q in qs)) else [-1] * len(g)})
     chunk = 500
-    res = pl.run_jobs([("breakcycles_replay", {"cases": [{k: c[k] for k in ("id", "src", "queries")} for c in cases[i:i + chunk]]})
+    res = pl.run_jobs([("breakcycles_replay", {"cases": [{k: c[k] for k in ("id", "src", "queries", "evv")} for c in cases[i:i + chunk]]})
                        for i in range(0, len(cases), chunk)], nproc=ctx.nproc, timeout=600, chunksize=1)
     judge = []
     drift = 0
@@ -198,14 +202,17 @@ def model_and_replay(ctx, cov):
         for o in r["results"]:
             ctx.evaluations += 1
             c = cases[o["id"]]
+            if o.get("skip"):
+                continue
             if o.get("error"):
                 ctx.violation({"clause": "crash", "level": "break_cycles-direct", "error": o["error"].split(":")[0]},
                               "break_cycles on source graph %s with labelled nodes %s raised %s" % (
-                                  json.dumps(c["src"]), json.dumps(c["queries"]), o["error"]), {"bc": {k: c[k] for k in ("src", "queries")}})
+                                  json.dumps(c["src"]), json.dumps(c["queries"]), o["error"]), {"bc": {k: c[k] for k in ("src", "queries", "evv")}})
                 continue
             if o["srcdump"] != [dict(n, det=0) for n in c["src"]]:
                 raise MachineryError("source graph was not stored literally: %s vs %s" % (o["srcdump"], c["src"]))
-            real = {"id": o["id"], "src": c["src"], "queries": c["queries"], "results": o["results"], "nodes": _strip(o["nodes"])}
+            real = {"id": o["id"], "src": c["src"], "queries": c["queries"], "results": o["results"], "nodes": _strip(o["nodes"]),
+                    "evv": o["evv"]}
             if "model" in c:
                 m = c["model"]
                 if m["results"] == o["results"] and _strip(m["nodes"]) == real["nodes"]:
@@ -216,7 +223,7 @@ def model_and_replay(ctx, cov):
         for n in c["src"] + c["nodes"]:
             n.setdefault("det", 0)
     # self-test of the binding: a recorded run with one registered key negated must be rejected by the Layer-A judge
-    probe = next((c for c in judge if c["results"] and c["results"][0] not in (0, FK)), None)
+    probe = next((c for c in judge if c["results"] and c["results"][0] not in (0, FK) and all(q["phase"] == 1 for q in c["queries"])), None)
     if probe is not None:
         bad = json.loads(json.dumps(probe))
         bad["id"] = 0
@@ -225,8 +232,12 @@ def model_and_replay(ctx, cov):
             raise MachineryError("self-test: JudgeBreakCycles accepted a corrupted run")
         cov["selftest_corrupted_run_rejected"] = True
     J = tlc.judge_batch("JudgeBreakCycles", judge, nproc=ctx.nproc, tag="c09bc")
+    unsound = 0
     for c in judge:
         j = J[c["id"]]
+        if not j["evvSound"]:
+            unsound += 1          # the propagated values are not entailed by the evidence: C06's subject, break_cycles is not judged
+            continue
         if not j["same"] and c["id"] >= nexp:
             drift += 1
         for k, cl in (("acyclic", "dagAcyclic"), ("meaning", "dagMeaning")):
@@ -234,7 +245,8 @@ def model_and_replay(ctx, cov):
                 ctx.violation({"clause": cl, "level": "break_cycles-direct"},
                               "%s is false: break_cycles on source graph %s with labelled nodes %s registered keys %s in target %s" % (
                                   cl, json.dumps(_strip(c["src"])), json.dumps(c["queries"]), c["results"], json.dumps(_strip(c["nodes"]))),
-                              {"bc": {"src": _strip(c["src"]), "queries": c["queries"]}})
+                              {"bc": {"src": _strip(c["src"]), "queries": c["queries"], "evv": c["evv"]}})
+    cov["random_graphs_with_unsound_propagation_skipped"] = unsound
     if drift:
         print("DRIFT property=C09 %d of %d runs of the real break_cycles differ from BreakCycles.tla (each judged by Layer A)" % (drift, len(cases)))
     cov.update({"model_behaviours_replayed": nexp, "random_graphs_validated": len(cases) - nexp, "model_drift": drift})
@@ -258,7 +270,7 @@ def replay(ctx, path):
             ctx.violation({"clause": "crash", "level": "break_cycles-direct", "error": o["error"].split(":")[0]}, o["error"], case)
         else:
             real = {"id": 0, "src": [dict(n, det=0) for n in c["src"]], "queries": c["queries"], "results": o["results"],
-                    "nodes": [dict(n, det=0) for n in _strip(o["nodes"])]}
+                    "nodes": [dict(n, det=0) for n in _strip(o["nodes"])], "evv": o["evv"]}
             j = tlc.judge_batch("JudgeBreakCycles", [real], nproc=1)[0]
             print(j)
             for k, cl in (("acyclic", "dagAcyclic"), ("meaning", "dagMeaning")):
